@@ -174,7 +174,7 @@ async def play(lab: L.Lab, case: dict, port: int, bind_port: int | None) -> dict
         elif op == 'reload':
             if args:
                 with open(lab.config_path, 'w') as f:
-                    f.write(args[0])
+                    f.write(args[0].replace('@PORT@', str(port)))
             from exabgp.reactor.interrupt import Signal
 
             lab.reactor.signal.received = Signal.RELOAD
@@ -192,6 +192,26 @@ async def play(lab: L.Lab, case: dict, port: int, bind_port: int | None) -> dict
             lab.reactor.signal.received = Signal.RELOAD
         elif op == 'shutdown':
             await lab.shutdown_reactor(args[0] if args else 5.0)
+        elif op == 'snapshot':
+            r_ = lab.reactor
+            snap = {'neighbors': sorted(r_.configuration.neighbors.keys()), 'peers': sorted(r_._peers.keys()), 'fsm': {k: p.fsm.name() for k, p in r_._peers.items()}, 'routes': {}, 'rib_out': {}, 'reload_error': str(r_.configuration.error)[-300:]}
+            for k, nb in r_.configuration.neighbors.items():
+                snap['routes'][k] = sorted(str(x) for x in nb.routes)
+            for k, p in r_._peers.items():
+                try:
+                    snap['rib_out'][k] = sorted(str(x) for x in p.neighbor.rib.outgoing.cached_routes())
+                except Exception as e:  # noqa
+                    snap['rib_out'][k] = ['<' + type(e).__name__ + '>']
+            lab.event('snapshot', name=args[0], snap=snap)
+        elif op == 'write_config':
+            with open(lab.config_path, 'w') as f:
+                f.write(args[0].replace('@PORT@', str(port)))
+        elif op == 'remove_config':
+            os.rename(lab.config_path, lab.config_path + '.gone')
+        elif op == 'restore_config':
+            os.rename(lab.config_path + '.gone', lab.config_path)
+        elif op == 'chmod_config':
+            os.chmod(lab.config_path, args[0])
         elif op == 'mark':
             lab.event('mark', name=args[0], session=cur.id if cur else None)
         else:
